@@ -117,12 +117,18 @@ Qed.
 
 (** hence the unconditional statement "every step preserves the invariant" is FALSE of the
     model; exec_step_preserves_inv carries the hypothesis step_ok *)
+Lemma run_snoc : forall w cs c, run w (cs ++ [c]) = run_cmd (run w cs) c.
+Proof. intros w cs c. unfold run. rewrite fold_left_app. reflexivity. Qed.
+
+Definition cex_alias_cs3 : list cmd :=
+  [ CStep (SAll (OCreate 0 1 1)); CStep (SAll (ODefDim 0 [120] 4)); CStep (SAll (OEnddef 0)) ].
+
 Theorem exec_step_preserves_inv_unconditional_false :
   ~ (forall w s, world_inv w -> world_inv (fst (exec_step w s))).
 Proof.
   intros H. apply cex_alias_not_inv.
-  change (run (world0 1) cex_alias_cs)
-    with (fst (exec_step (run (world0 1) (firstn 3 cex_alias_cs)) (SAll (OCreate 0 1 1)))).
+  assert (E : cex_alias_cs = cex_alias_cs3 ++ [CStep (SAll (OCreate 0 1 1))]) by reflexivity.
+  rewrite E, run_snoc. cbn [run_cmd].
   apply H. apply reachable_inv; [lia|vm_compute; reflexivity].
 Qed.
 
@@ -223,21 +229,21 @@ Proof.
   destruct ex_put_hyps as (H0 & H1 & H2 & H3 & H4 & H5). cbv zeta.
   apply (reachable_put_get 2 ex_cs_put 0 ex_f_put 1 ex_a ex_r _ (snd (indep_put ex_w_put 0 ex_f_put 1 ex_a))
            1 false ex_a ltac:(lia) H0 H1 H2 H3 H4 H5).
-  - cbn. repeat split; reflexivity.
+  - vm_compute. repeat split; reflexivity.
   - apply surjective_pairing.
   - reflexivity.
   - vm_compute. reflexivity.
   - vm_compute. reflexivity.
   - reflexivity.
   - vm_compute. reflexivity.
-  - cbn. repeat split; reflexivity.
+  - vm_compute. repeat split; reflexivity.
 Qed.
 
 (* ... and the value, computed *)
 Example ex_put_get_compute :
   get_rank_op (fst (indep_put ex_w_put 0 ex_f_put 1 ex_a))
               (indep_numrecs ex_f_put 1 (put_newrecs ex_f_put ex_a ex_r)) 1 false ex_a =
-  (NC_NOERR, [THex (guard_bytes ++ [174; 69; 163; 25; 152; 98; 141; 54] ++ guard_bytes)]).
+  (NC_NOERR, [THex (guard_bytes ++ [124; 37; 5; 95; 94; 35; 231; 92] ++ guard_bytes)]).
 Proof. vm_compute. reflexivity. Qed.
 
 (* the second enddef (after redef, fill mode, two new variables; h_minfree 100, r_align 64, move
